@@ -18,6 +18,7 @@ RULE = (
     "as real threads under sys.settrace; at every source line of mysensors/transport.py and mysensors/task.py the "
     "thread parks and the harness scheduler picks who runs next. ALL schedules with <= 2 pre-emptions (3 in the "
     "thorough tier; one less for the three-thread producer scenario) are enumerated by stateless DFS, plus Hypothesis-drawn unbounded schedules, "
+    "plus sends on a real loopback TCP connection that the peer has reset (RST) or closed (FIN), "
     "plus a live-pump phase (the real poll thread started by tasks.start(); while it sits in a slow write other threads queue commands and lines whose handling queues further commands from inside the poll thread; exact queue order expected), "
     "plus Hypothesis-drawn backlogs (up to 4 producers queue up to several thousand commands in drawn bursts while the pump is busy, then the real poll loop drains). Oracle per "
     "schedule: no exception leaves send / the poll loop; the writes recorded are [] or [cmd] (never twice, never "
@@ -487,7 +488,89 @@ def live_shard(args):
     return stats
 
 
+# -- a real TCP connection that the peer resets / closes while commands are being sent ------------------------------
+# Fake connections never fail inside close(); a real socket does. The pump-side send on a real TCPTransport over a
+# loopback TCP connection whose peer has sent RST (or FIN) must still either write or drop - never raise.
+
+tcp_reset_cases = st.fixed_dictionaries({
+    "scenario": st.just("tcp_reset"),
+    "how": st.sampled_from(["rst", "rst", "fin", "rst_with_unread_data"]),
+    "sends": st.integers(1, 4),
+})
+
+
+def tcp_reset(case, stats=None):
+    import socket
+    import struct
+    import time as real_time
+
+    import mysensors
+    import mysensors.gateway_tcp as gt
+    from mysensors import transport as mt
+
+    events = []
+    tr = mt.SyncTransport(None, lambda t: None)
+    tr.connect = lambda: events.append("reconnect")
+    tr.protocol.conn_lost_callback = tr.connect
+    gw = mysensors.BaseSyncGateway(tr, protocol_version="2.2")
+    tr.gateway = gw
+    tr.protocol.gateway = gw
+    try:
+        srv = socket.socket()
+        srv.bind(("127.0.0.1", 0))
+        srv.listen(1)
+        ours = socket.create_connection(srv.getsockname(), 5)
+        peer, _ = srv.accept()
+        srv.close()
+    except OSError:
+        # no loopback interface in this sandbox: the phase cannot run (explored less, never a violation)
+        if stats is not None:
+            stats.label("tcp-reset-unavailable:no-loopback")
+        return
+    tcp = gt.TCPTransport(ours, lambda: tr.protocol, lambda: None)
+    tcp.join = lambda timeout=None: None  # the reader thread is parked (never started): nothing to wait for
+    tr.protocol.transport = tcp
+    failed = None
+    try:
+        if case["how"] == "rst_with_unread_data":
+            ours.send(b"unread\n")
+            real_time.sleep(0.02)
+        if case["how"].startswith("rst"):
+            peer.setsockopt(socket.SOL_SOCKET, socket.SO_LINGER, struct.pack("ii", 1, 0))
+        peer.close()
+        real_time.sleep(0.03)
+        for i in range(case["sends"]):
+            try:
+                tr.send(f"1;1;1;0;2;{i % 2}\n")
+            except Exception as exc:  # pylint: disable=broad-except
+                failed = exc
+                break
+            real_time.sleep(0.01)
+    finally:
+        for sock in (ours, peer):
+            try:
+                sock.close()
+            except OSError:
+                pass
+    if failed is not None:
+        raise Violation(f"raises.tcp_reset.{type(failed).__name__}", case, f"[tcp_reset, {case['how']}] send on a connection the peer has {'reset' if case['how'].startswith('rst') else 'closed'} raised {type(failed).__name__}: {failed} into the caller (the pump)")
+    if events.count("reconnect") > 1:
+        raise Violation("reconnect_twice.tcp_reset", case, f"[tcp_reset, {case['how']}] {events.count('reconnect')} reconnects were requested for one lost connection")
+    if stats is not None:
+        stats.case(f"tcp_reset:{case['how']}:{case['sends']}", {"scenario": "tcp_reset", "how": case["how"], "sends": case["sends"], "reconnects": events.count("reconnect")}, labels=("tcp-reset", case["how"]))
+
+
+def tcp_reset_shard(args):
+    seed_value, n = args
+    common.setup_path()
+    stats = common.Stats()
+    common.run_given(stats, tcp_reset_cases, lambda c: tcp_reset(c, stats), n, seed_value, shrink=True)
+    return stats
+
+
 def check_case(case, stats=None):
+    if case.get("scenario") == "tcp_reset":
+        return tcp_reset(case, stats)
     if case.get("scenario") == "backlog":
         return backlog(case, stats)
     if case.get("scenario") == "live_pump":
@@ -516,6 +599,9 @@ def main(tier):
         run_.stats.merge(stats)
     n = 40 if tier == "quick" else 600
     for stats in common.pool_map(backlog_shard, [(common.shard_seed(common.seed(), 50 + i), n) for i in range(8)]):
+        run_.stats.merge(stats)
+    n = 6 if tier == "quick" else 60
+    for stats in common.pool_map(tcp_reset_shard, [(common.shard_seed(common.seed(), 90 + i), n) for i in range(4)]):
         run_.stats.merge(stats)
     n = 12 if tier == "quick" else 150
     for stats in common.pool_map(live_shard, [(common.shard_seed(common.seed(), 70 + i), n) for i in range(8)]):
